@@ -54,12 +54,16 @@ func main() {
 		name string
 		f    func()
 	}{
-		{"probes", h.probes}, {"registration", h.registrationTie}, {"node-wiring", h.wiringTie}, {"run-with-server", h.runWithServerTie}, {"ondisk", h.onDiskFormat}, {"schemaversion", h.svCorrespondence},
+		{"probes", h.probes}, {"registration", h.registrationTie}, {"node-wiring", h.wiringTie}, {"run-with-server", h.runWithServerTie}, {"node-histories", h.nodeWiringAll}, {"ondisk", h.onDiskFormat}, {"schemaversion", h.svCorrespondence},
 		{"pipeline", h.pipeAll}, {"runner", h.runnerAll}, {"blocktx", h.blockTxAll}, {"upgrade", h.fullAll},
 		{"headstate", h.headstateFamily}, {"statedifflength", h.sdlFamily}, {"blocktx-writefail", h.blockTxWriteFailures}, {"blocktx-final-step", h.blockTxFinalStep}, {"blocktx-cancel-at-reads", h.blockTxCancelAtReads}, {"blocktx-readfault", h.blockTxReadFaults},
 	}
 	var timing []string
+	only := os.Getenv("C18_PHASES") // debugging aid: comma-separated phase names (the floors of checks/c18.json fail such a run)
 	for _, ph := range phases {
+		if only != "" && !strings.Contains(","+only+",", ","+ph.name+",") {
+			continue
+		}
 		t0 := time.Now()
 		ph.f()
 		timing = append(timing, fmt.Sprintf("%s=%.1fs", ph.name, time.Since(t0).Seconds()))
@@ -110,6 +114,11 @@ func (h *harness) replay(path string) {
 			h.prunerRestoreCrash(pr.Spec, "replay")
 			return
 		}
+	}
+	var nh nodeHistory
+	if err := json.Unmarshal(doc.Replay, &nh); err == nil && len(nh.Starts) > 0 {
+		h.nodeHistoryCase(nh, "replay")
+		return
 	}
 	var fh fullHistory
 	if err := json.Unmarshal(doc.Replay, &fh); err == nil && len(fh.Spec.Chain.Layout) > 0 {
